@@ -17,7 +17,7 @@ def c19_jobs(tier):
     q = tier == 'quick'
     return [job('io-asan', 'c19', 'asan', threads=1, shards=8, timeout=2400),
             job('io-plain', 'c19', 'plain', threads=1, shards=4, timeout=2400),
-            job('io-vg', 'c19', 'vg', threads=1, valgrind=True, args=['--stride=%d' % (24 if q else 6)], timeout=3600)]
+            job('io-vg', 'c19', 'vg', threads=1, valgrind=True, args=['--stride=%d' % (24 if q else 6), '--child-timeout-ms=300000'], timeout=3600)]
 PROPS['C19'] = dict(
     level='exploration', jobs=c19_jobs,
     rule='round trips: seeded random sparse (0..100% dense, 1..40 rows/cols, sorted or shuffled rows) and dense data of types double/float/complex<double>/complex<float>/int/long long with values drawn from {random bit patterns, denormals, +-max, +-min, +-0, 17-digit decimals, small integers}; every row range for n <= 6, 9 ranges otherwise; symmetric (lower/upper) and foreign-format files written by the harness. Faults: every truncation point and every byte x 8 replacements of 9 small MatrixMarket files, every truncation point and every single-bit flip of header/ptr/col regions of 3 binary files, plus an explicit list of must-throw files. A case is non-trivial when the matrix stores at least one entry (round trips) / always (fault batches); distinct = distinct (sub-check, descriptor) hash.',
